@@ -214,6 +214,21 @@ fn c20(seed: u64) {
             }
         }
         cases += 3;
+        if std::mem::align_of::<PayloadKey>() == 1 {
+            for off in 0..16usize {
+                let mut area = [0xAAu8; 96];
+                unsafe {
+                    let p = area.as_mut_ptr().add(16 + off) as *mut PayloadKey;
+                    std::ptr::write(p, PayloadKey::new(&raw));
+                    std::ptr::drop_in_place(p);
+                    let bytes = std::slice::from_raw_parts(p as *const u8, std::mem::size_of::<PayloadKey>());
+                    if bytes.iter().any(|b| *b != 0) {
+                        fail("PayloadKey at an unaligned address holds non-zero bytes after drop_in_place");
+                    }
+                }
+                cases += 1;
+            }
+        }
         quiescent();
     }
     println!("KMIRI-OK c20 cases={}", cases);
